@@ -47,6 +47,12 @@ L doc_tol(int cfg, double a, double f) {
   return cfg_exact(cfg) ? tol::geod_exact_doc(a, f) : tol::geod_series_doc(a, f);
 }
 
+// K x documented accuracy: K = 2 for |f| <= 0.5, 4 beyond, 8 where b/a is outside [1/8, 8] (see props/geod_common.hpp)
+L kdoc(int cfg, double a, double f) {
+  double ba = 1 - f, r = ba > 1 ? ba : 1 / ba;
+  return (r > 8 ? 8 : std::fabs(f) > 0.5 ? 4 : 2) * doc_tol(cfg, a, f);
+}
+
 bool in_domain(int cfg, double a, double f) {
   if (!(a > 0) || !std::isfinite(a) || !std::isfinite(f)) return false;
   if (cfg_exact(cfg)) return (1 - f) >= 0.01 && (1 - f) <= 100;
@@ -114,7 +120,7 @@ Verdict check_ode(const J& r) {
   L Rmin = std::min(E.b * E.b / E.a, E.a * E.a / E.b);
   if (fabsl(s12) / (0.5L * Rmin) > 6000) { v.skip("reference too expensive for this eccentricity/length"); return v; }
   L circ = fabsl((L)o.a12) / 90;     // length in quarter circuits
-  L tolp = 2 * doc_tol(cfg, a, f) * (1 + circ);
+  L tolp = kdoc(cfg, a, f) * (1 + circ);
   ref::OdeResult R = ode.direct(lat1, lon1, azi1, s12, 0, 0.01L * tolp);
   if (!(R.err <= 0.02L * tolp)) { v.skip("reference not converged"); return v; }
   v.nontrivial = o.s12 != 0;
@@ -186,7 +192,7 @@ Verdict check_cfg(const J& r) {
   v.tag(arc ? "arcmode" : "distmode");
   for (int i = 0; i < NCFG; ++i)
     for (int j = i + 1; j < NCFG; ++j) {
-      L t = 2 * (doc_tol(i, a, f) + doc_tol(j, a, f)) * (1 + circ);
+      L t = (kdoc(i, a, f) + kdoc(j, a, f)) * (1 + circ);
       // same solver through different interfaces must agree much better: a few ulp of the radius
       bool same = cfg_exact(i) == cfg_exact(j);
       if (same) t = std::min(t, (L)(64 * 2.3e-16L * E.a * (1 + circ)) + 0 * t);
@@ -224,7 +230,7 @@ Verdict check_rev(const J& r) {
   ref::to_cart(E, o1.lat2, o1.lon2, p1); ref::to_cart(E, o2.lat2, o2.lon2, p2);
   ref::dir_vec(o1.lat2, o1.lon2, o1.azi2, d1); ref::dir_vec(o2.lat2, o2.lon2, o2.azi2 + 180, d2);
   L circ = fabsl((L)o1.a12) / 90;
-  L t = 2 * doc_tol(cfg, a, f) * (1 + circ);
+  L t = kdoc(cfg, a, f) * (1 + circ);
   v.nontrivial = len != 0;
   v.le(ref::dist3(p1, p2), t, "Direct(azi,-s) vs Direct(azi+180,s) end point [m]");
   v.le(ref::dist3(d1, d2) * E.a, 2 * t, "Direct(azi,-s) vs Direct(azi+180,s) direction [m-equivalent]");
